@@ -139,10 +139,17 @@ Definition prop_C12_goto (t : tree) (p q : pos) (path : list pos) : bool :=
 Definition prop_C12_binary_leaf {A} (slots : list (option A)) (is_leaf : bool) : bool :=
   Bool.eqb is_leaf (forallb (fun o => match o with None => true | Some _ => false end) slots).
 
-(* The inherited queries on a BinaryNode tree: the tree meant is the one whose children are the
-   occupied slots; the values must be those of that tree (a diameter, not an exception; siblings
-   that are nodes). *)
+(* The inherited queries on a BinaryNode tree.
+   diameter: that of the tree whose children are the occupied slots (t is that image tree).
+   siblings: from the links, the parent's children tuple is its pair of slots; the siblings are its
+   other entries in order, an empty slot being None (no parent: no siblings).  `parent_slots` are the
+   slots of the node one of whose slots holds `self`, as node.children showed them. *)
 Definition prop_C12_binary_diameter (t : tree) (p : pos) (code value : nat) : bool :=
   Nat.eqb code 0 && Nat.eqb value (spec_diameter t p).
-Definition prop_C12_binary_siblings (t : tree) (p : pos) (sibs : list (option pos)) : bool :=
-  list_eqb (opt_eqb pos_eq) sibs (map Some (spec_siblings t p)).
+Definition prop_C12_binary_siblings (parent_slots : option (list (option nat))) (self : nat)
+           (sibs : list (option nat)) : bool :=
+  list_eqb (opt_eqb Nat.eqb) sibs
+    (match parent_slots with
+     | None => []
+     | Some sl => filter (fun c => negb (opt_eqb Nat.eqb c (Some self))) sl
+     end).
